@@ -315,6 +315,23 @@ static Run run_solver_inproc(const Mat &A, Index neigen, const json &opt, bool h
   if (space > 0) DS.set_max_search_space(space);
   if (ham) DS.set_matrix_type("HAM");
   try {
+    if (opt.value("reuse", false) && !ham && !record) {
+      // history: the same solver object has already completed an (easy, converging) solve; the statement quantifies over
+      // matrices and options, so what the object did before must not show in the result or in info()
+      Mat W = Mat::Zero(9, 9);
+      for (Index i = 0; i < 9; ++i) W(i, i) = double(1 + 2 * i);
+      for (Index i = 0; i < 9; ++i)
+        for (Index j = 0; j < 9; ++j)
+          if (i != j) W(i, j) = 0.01 / double(1 + (i > j ? i - j : j - i) + ((i * j) % 3));
+      try {
+        DS.solve(W, 1);
+      } catch (const std::runtime_error &) {
+        // the warm-up only gives the object a history; its own outcome is not under test here
+      }
+      // solve() overwrites a default (0) search-space limit with 5*neigen of THAT solve and keeps it; the caller's
+      // options for the next solve are therefore set again (observation recorded in DESIGN.md, outside the statement)
+      DS.set_max_search_space(space);
+    }
     if (record) {
       RecOp op(A, record);
       DS.solve(op, neigen);
@@ -328,7 +345,7 @@ static Run run_solver_inproc(const Mat &A, Index neigen, const json &opt, bool h
   } catch (const std::runtime_error &e) {
     R.threw = true;
     R.what = e.what();
-    if (getenv("VV_C09_DEBUG")) std::cerr << log << "\nEXCEPTION " << R.what << "\n";
+    if (getenv("VV_C09_DEBUG")) { std::ofstream dbg("/tmp/c09dbg.log"); dbg << log << "\nEXCEPTION " << R.what << "\n"; }
     return R;
   }
   R.info = DS.info();
@@ -587,6 +604,7 @@ static void check_symm(Result &r, const json &c, const Mat &A, const Run &R, boo
   r.cls(std::string("opt:") + opt.at("corr").get<std::string>() + "/" + opt.at("upd").get<std::string>());
   r.cls(std::string("tol:") + opt.at("tol").get<std::string>());
   if (opt.value("mf", false)) r.cls("matrix-free");
+  if (opt.value("reuse", false)) r.cls("solver-object-reused");
   r.cls(n <= 16 ? "n<=16" : n <= 50 ? "n<=50" : n <= 100 ? "n<=100" : "n>100");
 
   if (R.lambda.size() != k || R.vecs.cols() != k || R.vecs.rows() != n) {
@@ -731,6 +749,7 @@ static json gen_opt(bool default_space, Index neigen, Index n, int iter_lo, int 
   o["tol"] = pick<std::string>({"loose", "normal", "strict", "lapack"});
   o["iter"] = ri(iter_lo, iter_hi);
   o["mf"] = rbool(30);
+  o["reuse"] = rbool(25);
   long space = 0;
   if (!default_space) {
     int k = ri(0, 3);
@@ -1175,6 +1194,7 @@ static Result run_ham(const json &c) {
   r.cls(std::string("tol:") + opt.at("tol").get<std::string>());
   r.cls(c.contains("offabs") ? "ham:strict(separated diagonal, couplings<=0.05)" : fmt("ham:general dom=%.2f", c.at("dom").get<double>()));
   if (opt.value("mf", false)) r.cls("matrix-free");
+  if (opt.value("reuse", false)) r.cls("solver-object-reused");
   if (c.value("repaired", false)) r.cls("excluded-known:uncoupled-olsen-start(repaired)");
   Run R = run_solver(H, k, opt, true);
   Ctx X{c, H, k, true, R};
